@@ -44,7 +44,7 @@ extern const struct rcu_flavor_struct F(flavor);
 
 enum { H_ADD = 1, H_ADDU, H_ADDR, H_LOOK, H_DELN, H_REPLN, H_WALK, H_SCAN, H_COUNT, H_RESIZE };
 enum { CF_OVERLAP_UPDATE = 0, CF_RESIZE_CONCURRENT = 1, CF_MULTI_REMOVERS = 2, CF_READER_ON_REMOVED = 3, CF_DUP_KEY = 4, CF_LAZY_RESIZE = 5,
-       CF_LIN_INCONCLUSIVE = 6, CF_NODE_FREED = 7, CF_UNIQUE_RACE = 8 };
+       CF_LIN_INCONCLUSIVE = 6, CF_NODE_FREED = 7, CF_UNIQUE_RACE = 8, CF_SOLO_INFLIGHT = 9, CF_SOLO_MID_RESIZE = 10 };
 
 struct mynode { struct cds_lfht_node n; struct rcu_head rh; int key; int id; unsigned long chk; };
 
@@ -150,22 +150,29 @@ static NS int pop_owned_any(void) { for (int t = 0; t < 16; t++) if (nowned[t]) 
 # define RUNLOCK() F(read_unlock)()
 #endif
 
+static NS void solo_inflight_class(void)
+{
+	for (int i = 0; i < nhist; i++) if (hist[i].op.ret == ~0ul && hist[i].op.thr != ds_scen_index()) { ds_flag(CF_SOLO_INFLIGHT); if (hist[i].op.type == H_RESIZE) ds_flag(CF_SOLO_MID_RESIZE); }
+	if (resizes_active) ds_flag(CF_SOLO_MID_RESIZE);
+}
 static void removed(int id)
 {
 	take_ownership(id);
+	if (ds_i_am_solo()) return;	/* C17: a grace period would (legitimately) wait for suspended readers */
 	if (free_mode) { pop_owned(); reclaim_now(id); }
 }
 
-enum { OP_ADD, OP_ADDU, OP_ADDR, OP_LOOK, OP_DEL, OP_DELN, OP_REPL, OP_WALK, OP_SCAN, OP_COUNT, OP_RESIZE, OP_YIELD, OP_BAD };
+enum { OP_ADD, OP_ADDU, OP_ADDR, OP_LOOK, OP_DEL, OP_DELN, OP_REPL, OP_WALK, OP_SCAN, OP_COUNT, OP_RESIZE, OP_YIELD, OP_GATE, OP_BAD };
 static NS int fetch(int t, int i, long *a0, long *a1)
 {
-	static const char *names[] = { "add", "addu", "addr", "look", "del", "deln", "repl", "walk", "scan", "count", "resize", "yield" };
+	static const char *names[] = { "add", "addu", "addr", "look", "del", "deln", "repl", "walk", "scan", "count", "resize", "yield", "gate" };
 	const struct ds_op *o = ds_op(t, i);
 	*a0 = o->a[0]; *a1 = o->a[1];
 	for (int k = 0; k < OP_BAD; k++) if (!strcmp(o->name, names[k])) return k;
 	ds_bad_case("lfht: unknown op %s", o->name);
 }
 
+static NS const char *names_of_op(int op) { static const char *n[] = { "cds_lfht_add", "cds_lfht_add_unique", "cds_lfht_add_replace", "cds_lfht_lookup", "lookup + cds_lfht_del", "cds_lfht_del", "lookup + cds_lfht_replace", "duplicate walk", "full traversal", "cds_lfht_count_nodes", "resize", "yield", "gate" }; return n[op]; }
 static void run_program(int t)
 {
 	int n = ds_nops(t);
@@ -177,6 +184,8 @@ static void run_program(int t)
 		struct cds_lfht_iter it;
 		struct cds_lfht_node *r;
 		ds_op_begin(i);
+		if (op == OP_GATE) { ds_solo_gate(); solo_inflight_class(); continue; }
+		ds_solo_op_begin();
 		switch (op) {
 		case OP_ADD: {
 			struct mynode *m = mk_node(id, key);
@@ -283,6 +292,7 @@ static void run_program(int t)
 			break;
 		case OP_YIELD: ds_yield(); break;
 		}
+		if (op != OP_YIELD && op != OP_RESIZE) ds_solo_op_end(names_of_op(op), ds_cfg("solo_bound", 4000));
 	}
 	ds_op_begin(-1);
 }
@@ -293,6 +303,9 @@ static void *thread_main(void *arg)
 	F(register_thread)();
 #ifdef FL_QSBR
 	F(thread_offline)();
+#endif
+#ifdef FL_BP
+	RLOCK(); RUNLOCK();	/* bp registers a thread on its first use */
 #endif
 	run_program(t);
 	F(unregister_thread)();	/* freemode 0: removed nodes are reclaimed by T0 after all threads have finished (deln may still target them) */
